@@ -88,7 +88,9 @@ Proof. exact reuse_fresh_is_single_proof. Qed.
 (* History independence.  Whatever the object answered before, its answer is the answer of
    a fresh object: the same status, the same chunks / messages after the start message in
    the same order (reply_strip blanks the header list only), and the same header list AS A
-   MULTISET: a permutation, without a repeated name, the same value under every name.
+   MULTISET: a permutation — hence the same canonical (sorted) list, which is what the
+   observation line of the correspondence check prints —, without a repeated name, the
+   same value under every name.
    (As a list it is not: the mapping keeps insertion order, a Content-Range that was
    removed and written again moves to the end — Example ex_reuse_order in ReuseProofs.v.) *)
 Theorem reuse_history_independent :
@@ -97,6 +99,7 @@ Theorem reuse_history_independent :
   let b := answer_after true i o caller [] q in
   reply_strip a = reply_strip b /\
   Permutation (reply_headers a) (reply_headers b) /\
+  sort_headers (reply_headers a) = sort_headers (reply_headers b) /\
   NoDup (map fst (reply_headers a)) /\
   (forall k, hget k (reply_headers a) = hget k (reply_headers b)).
 Proof. exact reuse_history_independent_proof. Qed.
